@@ -20,6 +20,7 @@ OBLIGATIONS = [
     'Cvise.C07.balanced_recipes_shaped', 'Cvise.C07.lines_candidate', 'Cvise.C07.blank_candidate', 'Cvise.C07.includes_candidate',
     'Cvise.C07.readlines_lossless', 'Cvise.C07.single_line_offered', 'Cvise.C07.balanced_offers_all', 'Cvise.C07.balanced_prefix_free',
     'Cvise.C07.balanced_deletion_sublist', 'Cvise.C07.balanced_deleting_args', 'Cvise.C07.balanced_cursors_wellformed', 'Cvise.C07.ternary_sublist', 'Cvise.C07.ternary_cursors_wellformed', 'Cvise.C07.comments_candidate',
+    'Cvise.C07.ok_differs_ints', 'Cvise.C07.ok_differs_special', 'Cvise.C07.mods_cursor_wellformed', 'Cvise.C07.ints_special_passes', 'Cvise.C07.ints_special_deleting_shorter',
 ]
 
 DELETION = {('balanced', a) for a in ['parens', 'curly', 'square', 'angles', 'parens-only', 'curly-only', 'square-only', 'angles-only',
